@@ -3,6 +3,7 @@
 package fsx
 
 import (
+	"sync"
 	"errors"
 	"fmt"
 	"io"
@@ -299,7 +300,12 @@ func Populate(fs filesystem.FileSystem, entries []Entry) error {
 				return fmt.Errorf("mkdir %s: %w", e.Path, err)
 			}
 		case e.Link != "":
-			if err := fs.Symlink(e.Link, e.Path); err != nil {
+			if w, ok := fs.(interface{ Workspace() string }); ok && w.Workspace() != "" {
+				// iso9660 / squashfs do not implement Symlink: links are placed in the workspace
+				if err := os.Symlink(e.Link, path.Join(w.Workspace(), e.Path)); err != nil {
+					return fmt.Errorf("symlink %s: %w", e.Path, err)
+				}
+			} else if err := fs.Symlink(e.Link, e.Path); err != nil {
 				return fmt.Errorf("symlink %s: %w", e.Path, err)
 			}
 		default:
@@ -332,9 +338,13 @@ func WriteFile(fs filesystem.FileSystem, p string, data []byte) error {
 
 // ReadAll reads r to the end with a bound on iterations, so that a handle that returns
 // (0, nil) forever or never reports EOF does not hang the harness.
+var readBufPool = sync.Pool{New: func() any { b := make([]byte, 32*1024); return &b }}
+
 func ReadAll(r io.Reader, limit int64) ([]byte, error) {
 	var out []byte
-	buf := make([]byte, 32*1024)
+	bp := readBufPool.Get().(*[]byte)
+	defer readBufPool.Put(bp)
+	buf := *bp
 	zero := 0
 	for {
 		n, err := r.Read(buf)
